@@ -65,6 +65,14 @@ CHECKS = {
         "OFXHeaderError is the only accepted refusal; corruption of the XML declaration and omission of COMPRESSION are not asserted",
         "property-based testing: exhaustive enumeration of the version/corruption table + Hypothesis sampling; round-trip and must-reject oracles",
     ),
+    "C01": (
+        "exploration",
+        "Every concrete aggregate class gets Hypothesis-generated valid instances (declaration-driven generator with hand-tabled custom "
+        "constraints) which the library serialises in all six wire forms with drawn header versions and reads back; a structural "
+        "comparator (never list.__eq__) checks classes, nesting, list order and typed values.  Sampled, cannot establish absence.",
+        "generator validity rules are read from class declarations (cross-checked against Aggregate.spec); one open known finding is excluded by construction (unclosed SGML, empty aggregate followed by a sibling)",
+        "property-based testing: Hypothesis structured generation over all classes; round-trip oracle with structural comparator",
+    ),
 }
 
 PENDING_REASON = "check not built yet in this round (planned in DESIGN.md §3); not claimed until its machinery exists and is quiet on the unchanged tree"
